@@ -33,6 +33,10 @@ open Parsley Parsley.Prim Parsley.Obj Driver
                            Output: `ok <start> <end> <cursor> <depth delta> <num> <gen> <objstart> <objend> <value>` or
                            `err <kind> <depth delta> <cursor>`; the value of a stream: its dictionary's (digest + ` st <content start>
                            <size>` for `wide` / `run` bodies).
+    `ctx <dA> <jA> keep|drop|leave|thread <case>` / `cseq <n> <d_0> <k_0> ... ; <i> <step> ; ...`
+                           SEVERAL CONTEXTS on one thread (see the section before `model`): another context A entered jA times
+                           (kept, dropped as it is, left again, or alive on another thread) while `<case>` runs on its own new
+                           context; interleaved steps on n contexts, with the client's own enter / leave / drop.
     Output for `wide` / `run` (harness and model): `ok <start> <stop> <cursor> <depth delta> dg n=<nodes> k=<depth>
     w=<largest number of children> h=<order-sensitive checksum>` or `err <kind> <delta>`: a digest instead of the value, to keep
     the lines short.  The harness runs EVERY C16 case on a thread with a fixed 1 MiB stack. -/
@@ -392,8 +396,9 @@ def stepsOf (d : String) (rest : List String) : List (List String) :=
     | kind :: args => kind :: d :: args
     | [] => []
 
-def model (line : String) : String :=
-  match words line with
+/-- a case on ONE context of its own (`seq`, `at`, or a plain case): the context is a fresh value `Ctx.new d` entered k0 times -/
+def modelW (ws : List String) : String :=
+  match ws with
   | "seq" :: d :: k0 :: rest =>
     match d.toNat?, k0.toNat? with
     | some dn, some k0 =>
@@ -409,6 +414,119 @@ def model (line : String) : String :=
     | some k0, _ :: d :: _ => (modelStepC { Indirect.Ctx.new (d.toNat?.getD 0) with cur := k0 } rest).1
     | _, _ => "bad-case"
   | w => (modelStepC (Indirect.Ctx.new (((w.drop 1).headD "0").toNat?.getD 0)) w).1
+
+/-! ### several contexts (after missed seed C16_9: the depth in a thread-local shared by all contexts of a thread)
+
+    `ctx <dA> <jA> keep|drop|leave|thread <case>`: context A = new(dA) entered jA times, then kept / dropped as it is / left jA
+    times (`thread`: made and kept on another thread); then `<case>` (plain, `at`, `seq`) on its own new context B.
+    Output `ctx <B's depth right after new> <A's depth after B's case | -> <the case's line>`.
+    `cseq <n> <d_0> <k_0> ... ; <i> <step> ; ...`: n contexts made in order (bound d_i, entered k_i times), then steps on the
+    context of their index: the parse steps of `seq`, the client's own `enter` / `leave`, `drop`.  Output `new <depths right after
+    new>` ; per step `<depth of ITS context before> <line | entered | refused | left | left-at-zero | dropped>` ; `end <final depths>`.
+    In the model a context is a VALUE (`Indirect.Ctx`): a parse on one is a function of that value alone. -/
+
+def ctxModes : List String := ["keep", "drop", "leave", "thread"]
+
+/-- `enter_obj()`: `if cur_depth == max_depth { false } else { cur_depth += 1; true }` -/
+def enterObj (c : Indirect.Ctx) : Bool × Indirect.Ctx :=
+  if c.cur == c.max then (false, c) else (true, { c with cur := c.cur + 1 })
+
+/-- the harness's guarded `leave_obj()`: not called at depth 0 (there the real one asserts) -/
+def leaveGuarded (c : Indirect.Ctx) : Bool × Indirect.Ctx :=
+  if c.cur == 0 then (false, c) else (true, { c with cur := c.cur - 1 })
+
+/-- `new(d)` then k `enter_obj()` calls; `none`: one of them refused -/
+def ctxAt (d k : Nat) : Option Indirect.Ctx :=
+  (List.range k).foldl (fun (c : Option Indirect.Ctx) _ =>
+    match c with
+    | none => none
+    | some c => let (ok, c') := enterObj c; if ok then some c' else none) (some (Indirect.Ctx.new d))
+
+def showDepth : Option Indirect.Ctx → String
+  | some c => toString c.cur
+  | none => "-"
+
+/-- header of a `cseq` case: the (bound, entered) pairs and the steps (each: context index :: step words) -/
+def cseqOf (ws : List String) : Option (List (Nat × Nat) × List (List String)) :=
+  match ws with
+  | "cseq" :: n :: rest =>
+    match n.toNat? with
+    | some n =>
+      if n < 1 || n > 8 || rest.length < 2 * n + 1 || (rest.drop (2 * n)).head? != some ";" then none
+      else
+        let nums := (rest.take (2 * n)).map String.toNat?
+        if nums.any Option.isNone then none
+        else
+          let v := nums.map (·.getD 0)
+          let dk := (List.range n).map fun i => (v.getD (2 * i) 0, v.getD (2 * i + 1) 0)
+          if dk.any (fun p => p.2 > p.1) then none
+          else some (dk, (splitSemi (rest.drop (2 * n + 1))).filter (· ≠ []))
+    | none => none
+  | _ => none
+
+def setAt {α : Type} (l : List α) (i : Nat) (x : α) : List α := l.set i x
+
+def modelCseq (ws : List String) : String :=
+  match cseqOf ws with
+  | none => "bad-case"
+  | some (dk, steps) =>
+    -- make the contexts in order; every one is a fresh value
+    let made := dk.foldl (fun (acc : List String × List (Option Indirect.Ctx) × Option Nat) p =>
+      let (news, cs, failed) := acc
+      match failed with
+      | some _ => acc
+      | none =>
+        let fresh := Indirect.Ctx.new p.1
+        match ctxAt p.1 p.2 with
+        | some c => (news ++ [toString fresh.cur], cs ++ [some c], none)
+        | none => (news ++ [toString fresh.cur], cs, some cs.length)) ([], [], none)
+    let (news, cs0, failed) := made
+    match failed with
+    | some i => s!"new {" ".intercalate news} ; enter-refused {i}"
+    | none =>
+      let (outs, cs) := steps.foldl (fun (acc : List String × List (Option Indirect.Ctx)) st =>
+        let (outs, cs) := acc
+        match st with
+        | i :: kind :: args =>
+          match i.toNat? with
+          | some i =>
+            match cs.getD i none, dk[i]? with
+            | some c, some (d, _) =>
+              let before := c.cur
+              if kind == "enter" then
+                let (ok, c') := enterObj c
+                (s!"{before} {if ok then "entered" else "refused"}" :: outs, setAt cs i (some c'))
+              else if kind == "leave" then
+                let (ok, c') := leaveGuarded c
+                (s!"{before} {if ok then "left" else "left-at-zero"}" :: outs, setAt cs i (some c'))
+              else if kind == "drop" then (s!"{before} dropped" :: outs, setAt cs i none)
+              else
+                let (o, c') := modelStepC c (kind :: toString d :: args)
+                (s!"{before} {o}" :: outs, setAt cs i (some c'))
+            | _, _ => ("bad-step" :: outs, cs)
+          | none => ("bad-step" :: outs, cs)
+        | _ => ("bad-step" :: outs, cs)) ([], cs0)
+      " ; ".intercalate ([s!"new {" ".intercalate news}"] ++ outs.reverse ++ [s!"end {" ".intercalate (cs.map showDepth)}"])
+
+def model (line : String) : String :=
+  match words line with
+  | "ctx" :: dA :: jA :: mode :: inner =>
+    match dA.toNat?, jA.toNat? with
+    | some dA, some jA =>
+      if inner.length < 3 || inner.head? == some "ctx" || inner.head? == some "cseq" || !ctxModes.contains mode then "bad-case"
+      else
+        match ctxAt dA jA with
+        | none => "enter-refused A"
+        | some a =>
+          let a' : Option Indirect.Ctx :=
+            if mode == "drop" then none
+            else if mode == "leave" then some ((List.range jA).foldl (fun c _ => (leaveGuarded c).2) a)
+            else some a
+          -- B is made by `modelW` from the inner case alone: A is not an argument of anything B does
+          s!"ctx {(Indirect.Ctx.new 0).cur} {showDepth a'} {modelW inner}"
+    | _, _ => "bad-case"
+  | "cseq" :: rest => modelCseq ("cseq" :: rest)
+  | w => modelW w
 
 /-- oracle for the width / length profiles, from the description alone -/
 def judgeBig (b : Big) (impl : String) (k0 : Nat := 0) : String :=
@@ -517,8 +635,11 @@ def definedAfter (defined : List Nat) (w : List String) (impl : String) : List N
   | some x => if (words impl).head? == some "ok" then x.num :: defined else defined
   | none => defined
 
-def judge (case impl : String) : String :=
-  match words case with
+/-- a case on ONE context of its own -/
+def judgeW (cw : List String) (impl : String) : String :=
+  if (words impl).head? == some "enter-refused" then "bad enter-refused-within-bound"
+  else
+  match cw with
   | "seq" :: d :: k0 :: rest =>
     let steps := stepsOf d rest
     let outs := impl.splitOn " ; "
@@ -539,6 +660,94 @@ def judge (case impl : String) : String :=
       go 0 [] steps outs
   | "at" :: k0 :: rest => judgeStepC k0.toNat! [] rest impl
   | w => judgeStepC 0 [] w impl
+
+def isCrash (impl : String) : Bool :=
+  let v := (words impl).headD "?"
+  v.startsWith "crash" || v == "hang" || v == "panic"
+
+/-- oracle for `ctx`: contexts are independent - B's fresh depth is 0, A's depth is what A's own enter / leave calls made it,
+    and the inner case is judged exactly as if it ran alone -/
+def judgeCtx (dA jA : Nat) (mode : String) (inner : List String) (impl : String) : String :=
+  if isCrash impl then s!"bad panic-or-crash impl={(words impl).headD "?"} other-context-entered={jA} mode={mode}"
+  else
+    match words impl with
+    | ["enter-refused", "A"] => if jA ≤ dA then "bad enter-refused-within-bound ctx=A" else "ok"
+    | "ctx" :: b0 :: a :: rest =>
+      let verdict := judgeW inner (" ".intercalate rest)
+      let wantA := if mode == "drop" then "-" else if mode == "leave" then "0" else toString jA
+      if b0 != "0" && b0 != "-" then
+        s!"bad context-depth-shared new-context-depth={b0} other-context-entered={jA} mode={mode} inner-verdict=[{verdict}]"
+      else if a != wantA then s!"bad context-depth-shared other-context-depth-after={a} want={wantA} mode={mode}"
+      else verdict
+    | _ => "bad panic-or-crash"
+
+/-- oracle for `cseq`, from the description alone: the depth of context i is k_i plus ITS OWN enter / leave steps (parses
+    leave it as it is, steps on other contexts do not touch it); a parse step is judged as a `seq` step from that depth with
+    the definitions of ITS context -/
+def judgeCseq (cw : List String) (impl : String) : String :=
+  if isCrash impl then s!"bad panic-or-crash impl={(words impl).headD "?"}"
+  else
+  match cseqOf cw with
+  | none => "skip"
+  | some (dk, steps) =>
+    let segs := impl.splitOn " ; "
+    let n := dk.length
+    match segs with
+    | [] => "bad panic-or-crash"
+    | s0 :: more =>
+      match words s0 with
+      | "new" :: b0s =>
+        if b0s.any (· != "0") then s!"bad context-depth-shared new-context-depth={" ".intercalate b0s}"
+        else if (more.head?.map fun x => (words x).head? == some "enter-refused") == some true then "bad enter-refused-within-bound"
+        else if b0s.length != n || more.length != steps.length + 1 then "bad panic-or-crash"
+        else
+          -- state: per context (expected depth, alive, numbers defined)
+          let rec go (j : Nat) (st : List (Nat × Bool × List Nat)) : List (List String) → List String → String
+            | step :: ss, o :: os =>
+              match step with
+              | i :: kind :: args =>
+                match i.toNat?.bind (fun i => (st[i]?).bind fun e => (dk[i]?).map fun p => (i, e, p.1)), words o with
+                | some (i, (e, alive, defined), d), before :: line =>
+                  if !alive then "skip"
+                  else if before != toString e then
+                    s!"bad context-depth-shared step={j + 1} ctx={i} depth-before={before} want={e}"
+                  else if kind == "enter" then
+                    let want := if e < d then "entered" else "refused"
+                    if line != [want] then s!"bad enter-obj-wrong step={j + 1} ctx={i} got={" ".intercalate line} want={want}"
+                    else go (j + 1) (st.set i (if e < d then e + 1 else e, alive, defined)) ss os
+                  else if kind == "leave" then
+                    let want := if e ≥ 1 then "left" else "left-at-zero"
+                    if line != [want] then s!"bad leave-obj-wrong step={j + 1} ctx={i}"
+                    else go (j + 1) (st.set i (e - 1, alive, defined)) ss os
+                  else if kind == "drop" then
+                    if line != ["dropped"] then "bad panic-or-crash" else go (j + 1) (st.set i (e, false, defined)) ss os
+                  else
+                    let w := kind :: toString d :: args
+                    let lineS := " ".intercalate line
+                    let v := judgeStepC e defined w lineS
+                    if v == "ok" then go (j + 1) (st.set i (e, alive, definedAfter defined w lineS)) ss os
+                    else
+                      match words v with
+                      | "bad" :: cls :: rest => s!"bad {cls} step={j + 1} ctx={i} {" ".intercalate rest}"
+                      | _ => v
+                | _, _ => "skip"
+              | _ => "skip"
+            | [], [o] =>
+              let want := st.map fun (e, alive, _) => if alive then toString e else "-"
+              if words o == "end" :: want then "ok"
+              else s!"bad context-depth-shared final-depths=[{o}] want=[{" ".intercalate want}]"
+            | _, _ => "bad panic-or-crash"
+          go 0 (dk.map fun p => (p.2, true, [])) steps more
+      | _ => "bad panic-or-crash"
+
+def judge (case impl : String) : String :=
+  match words case with
+  | "ctx" :: dA :: jA :: mode :: inner =>
+    match dA.toNat?, jA.toNat? with
+    | some dA, some jA => if inner.length < 3 || !ctxModes.contains mode then "skip" else judgeCtx dA jA mode inner impl
+    | _, _ => "skip"
+  | "cseq" :: rest => judgeCseq ("cseq" :: rest) impl
+  | w => judgeW w impl
 
 /-- a nesting profile: openers (0 = array, 1 = dictionary value, 2 = array with a leading sibling) -/
 def render (profile : List Nat) (leaf : Bytes) : Bytes :=
@@ -583,6 +792,17 @@ def withD (d : Nat) (step : String) : String :=
 def indStep (form : String) (num : Nat) (step : String) : String := s!"ind {form} {num} {step}"
 
 def seqCase (d k0 : Nat) (steps : List String) : String := s!"seq {d} {k0} ; " ++ " ; ".intercalate steps
+
+/-! ### several contexts (after missed seed C16_9) -/
+
+def ctxCase (dA jA : Nat) (mode c : String) : String := s!"ctx {dA} {jA} {mode} {c}"
+
+/-- how often context A is entered before B parses: 0, 1, 2, dA-1, dA -/
+def enteredOf (dA : Nat) : List Nat := ([0, 1, 2, dA - 1, dA].filter (· ≤ dA)).eraseDups
+
+def cseqCase (dk : List (Nat × Nat)) (steps : List (Nat × String)) : String :=
+  s!"cseq {dk.length} " ++ " ".intercalate (dk.map fun p => s!"{p.1} {p.2}") ++ " ; " ++
+    " ; ".intercalate (steps.map fun p => s!"{p.1} {p.2}")
 
 def gen (seed n : Nat) (tier : String) (emit : String → IO Unit) : IO Unit := do
   let mut r := Rng.mk' seed
@@ -889,6 +1109,169 @@ def gen (seed n : Nat) (tier : String) (emit : String → IO Unit) : IO Unit := 
       rj3 := rj3 + 1
     emit (seqCase 3 1 [s!"ind p 1 run 1000 {kind} {2 - ld} a", s!"run 1000 {kind} 2 a", s!"ind p 1 run 1000 {kind} {2 - ld} m", s!"ind s 2 run 1000 {kind} 0 a"])
 
+  -- ===== SEVERAL CONTEXTS (`ctx`): context A = new(dA) entered jA in {0, 1, 2, dA-1, dA} times and then kept / dropped as it
+  -- is / left again, BEFORE the case runs on its own new context B of bound dB in {1, 2, 3, jA-1, jA, jA+1, dA, 64}: what A
+  -- holds is below, at and above B's bound.  Inner cases: nesting exactly at B's bound / one beyond (fresh, from k0, as a
+  -- sequence, as an indirect object), a syntax error at depth, unclosed nesting
+  let mut ci := 0
+  for dA in [1, 2, 3, 4, 8, 64] do
+    for jA in enteredOf dA do
+      for mode in (if jA == 0 then ["keep", "drop"] else ["keep", "drop", "leave"]) do
+        let dBs := ([1, 2, 3, jA - 1, jA, jA + 1, dA, 64] ++ (if thorough then [4, 5, 8, 2 * jA, 32, 63] else [])).filter (· ≥ 1)
+        for dB in dBs.eraseDups do
+          for kind in (if thorough then [0, 1, 2] else [ci % 3]) do
+            let w (c : String) : IO Unit := emit (ctxCase dA jA mode c)
+            for t in (if thorough then [dB - 1, dB, dB + 1, dB + 2] else [dB, dB + 1]) do
+              if t ≥ 1 && (kind == 0 || t ≥ 2) then w (withD dB (nestStep kind t))
+            for k0 in ([1, dB - 1, dB].filter fun k => 1 ≤ k && k ≤ dB).eraseDups do
+              let rem := dB - k0
+              if rem ≥ 1 then w s!"at {k0} {withD dB (nestStep kind rem)}"
+              w s!"at {k0} {withD dB (nestStep kind (rem + 1))}"
+            for k0 in [0, 1] do
+              if k0 ≤ dB then
+                let rem := dB - k0
+                let acc := if rem ≥ 1 then [nestStep kind rem] else []
+                w (seqCase dB k0 ([nestStep kind (rem + 1)] ++ acc ++ [nestStep kind (rem + 1)]))
+                if k0 == ci % 2 then w (seqCase dB k0 (acc ++ [cutStep kind (Nat.max rem 1) (ci % 3), indStep "p" 1 (nestStep kind (Nat.max rem 1))] ++ acc))
+            w (withD dB (indStep "p" 1 (nestStep kind dB)))
+            w (withD dB (indStep "p" 1 (nestStep kind (dB + 1))))
+            if dB ≥ 2 then w (withD dB (indStep "s" 2 (nestStep kind (dB - 1))))
+            w (withD dB (cutStep kind dB (ci % 3)))
+            w s!"deep {dB} {1000 + dA} {if kind == 1 then "dict" else "arr"}"
+          ci := ci + 1
+  -- A on ANOTHER thread, alive while B parses on the case's thread
+  for dA in [2, 8, 64] do
+    for jA in enteredOf dA do
+      for dB in ([1, jA, jA + 1, 64].filter (· ≥ 1)).eraseDups do
+        let kind := (dA + jA + dB) % 3
+        emit (ctxCase dA jA "thread" (withD dB (nestStep kind dB)))
+        emit (ctxCase dA jA "thread" (withD dB (nestStep kind (dB + 1))))
+        emit (ctxCase dA jA "thread" s!"at 1 {withD dB (nestStep kind dB)}")
+        emit (ctxCase dA jA "thread" (seqCase dB 0 [nestStep kind (dB + 1), nestStep kind dB]))
+  -- very deep unclosed nesting, width and length profiles on B while A holds levels (A above B's bound: nothing of B's
+  -- bound may leak away; on a 1 MiB stack unbounded recursion is a crash)
+  for (dA, jA, mode) in [(8, 8, "drop"), (4, 2, "keep"), (64, 63, "keep"), (2, 2, "thread")] ++
+      (if thorough then [(8, 8, "keep"), (64, 64, "drop"), (3, 1, "leave")] else []) do
+    let w (c : String) : IO Unit := emit (ctxCase dA jA mode c)
+    w "deep 3 100000 arr"
+    w "deep 1 100000 dict"
+    w "at 1 deep 3 100000 arr"
+    w "ind 3 p 1 deep 100000 arr"
+    w "wide 3 300 arr int 1 a -"
+    w "wide 3 300 dict arr1 0 d -"
+    w "wide 3 1000 arr earr 2 m -"
+    w "wide 64 300 dict name 62 m -"
+    w "wide 3 10000 arr int 1 a -"
+    w "at 1 wide 3 300 arr int 0 a deep"
+    w "run 2 1000 str 1 a"
+    w "run 2 1000 bigkey 0 a"
+    w "run 3 1000 arrcmt 3 m"
+    w "at 1 run 3 10000 hexws 1 d"
+    w (seqCase 3 1 ["wide 300 arr int 1 a -", "run 1000 name 1 a", "ind p 1 wide 300 dict int 0 a -"])
+  -- random: contexts A around random profiles / truncations / sequences on B
+  let mut r4 := Rng.mk' (seed + 15485863)
+  let mut recentC : List String := []
+  for it in List.range (if thorough then n / 6 else n / 3) do
+    let (dA0, ra) := r4.nat 12
+    let dA := dA0 + 1
+    let (jc, rb) := ra.nat 3
+    let (jr, rc) := rb.nat (dA + 1)
+    let jA := if jc == 0 then jr else (enteredOf dA)[jr % (enteredOf dA).length]?.getD 1
+    let (mode, rd) := rc.pick ["keep", "keep", "drop", "drop", "leave"]
+    let (d, re) := rd.nat 13
+    let (k0, rf) := re.nat (d + 1)
+    let (len, rg) := rf.nat 14
+    let (prof, rh) := (List.range len).foldl (fun (acc : List Nat × Rng) _ =>
+      let (o, r) := acc.2.nat 3; (o :: acc.1, r)) ([], rg)
+    let (leaf, ri) := rh.pick leaves
+    let sb := render prof leaf
+    let (cut, rj) := ri.nat (sb.length + 1)
+    let (form, rk) := rj.pick ["p", "s", "e"]
+    let st1 := s!"nest {hexOfBytes sb} {len + 1}"
+    let st2 := s!"cut {hexOfBytes (sb.take cut)}"
+    let st3 := indStep form 1 st1
+    recentC := (st1 :: st2 :: st3 :: recentC).take 9
+    r4 := rk
+    let inner :=
+      if it % 4 == 0 then withD d st1
+      else if it % 4 == 1 then s!"at {k0} {withD d (if it % 8 == 1 then st2 else st3)}"
+      else if it % 4 == 2 then s!"at {k0} {withD d st1}"
+      else
+        let (a, rl) := r4.pick recentC
+        let (b, rm) := rl.pick recentC
+        let (c, _) := rm.pick recentC
+        seqCase d k0 (if it % 8 == 3 then [a, b, c] else [a, b])
+    emit (ctxCase dA jA mode inner)
+
+  -- ===== INTERLEAVINGS (`cseq`): two and three contexts alive on one thread, parses alternating between them, the client's
+  -- own enter_obj / leave_obj on one context between the parses on another, a context dropped while entered; the expected
+  -- depth of context i is tracked from ITS steps alone
+  let mut qi := 0
+  for dA in [1, 2, 3, 4, 8, 64] do
+    for dB in [1, 2, 3, 4, 8, 64] do
+      for kA in ([0, 1, dA - 1, dA].filter (· ≤ dA)).eraseDups do
+        for kB in ([0, dB - 1, dB].filter (· ≤ dB)).eraseDups do
+          let kind := qi % 3
+          let acc (d e : Nat) : List String := if d - e ≥ 1 && e ≤ d then [nestStep kind (d - e)] else []
+          let rej (d e : Nat) : String := nestStep kind (d - e + 1)
+          let on (i : Nat) (l : List String) : List (Nat × String) := l.map fun x => (i, x)
+          let two := [(dA, kA), (dB, kB)]
+          let pats : List (List (Nat × Nat) × List (Nat × String)) := [
+            -- alternate: at the bound on A, at the bound on B, A again, then the rejections
+            (two, on 0 (acc dA kA) ++ on 1 (acc dB kB) ++ on 0 (acc dA kA) ++ [(1, rej dB kB), (0, rej dA kA)] ++ on 1 (acc dB kB)),
+            (two, [(0, rej dA kA), (1, rej dB kB)] ++ on 0 (acc dA kA) ++ on 1 (acc dB kB) ++ [(0, rej dA kA)]),
+            -- A enters one more level (refused at its bound) while B parses, leaves again
+            (two, [(0, "enter")] ++ on 1 (acc dB kB) ++ [(1, rej dB kB)] ++ on 0 (acc dA (Nat.min (kA + 1) dA)) ++ [(0, "leave")] ++
+                  on 1 (acc dB kB) ++ on 0 (acc dA (Nat.min (kA + 1) dA - 1)) ++ [(0, rej dA (Nat.min (kA + 1) dA - 1))]),
+            -- A dropped while entered
+            (two, [(0, "enter"), (0, "drop")] ++ on 1 (acc dB kB) ++ [(1, rej dB kB)] ++ on 1 (acc dB kB)),
+            -- definitions are per context too: number 1 on A, number 1 on B (not a duplicate), number 1 on A again (duplicate)
+            (two, on 0 ((acc dA kA).map (indStep "p" 1)) ++ on 1 ((acc dB kB).map (indStep "p" 1)) ++ on 0 ((acc dA kA).map (indStep "p" 1)) ++
+                  [(1, indStep "p" 2 (rej dB kB))] ++ on 1 ((acc dB kB).map (indStep "p" 2)) ++ on 0 (acc dA kA)),
+            -- syntax errors at depth and unclosed nesting on A between B's parses
+            (two, [(0, cutStep kind (Nat.max (dA - kA) 1) (qi % 3))] ++ on 1 (acc dB kB) ++ [(0, s!"deep {1000 + dB} arr"), (1, rej dB kB)] ++ on 0 (acc dA kA)),
+            -- three contexts
+            ([(dA, kA), (dB, kB), (dB, 0)], on 0 (acc dA kA) ++ on 2 (acc dB 0) ++ on 1 (acc dB kB) ++ [(2, rej dB 0), (1, "leave"), (0, rej dA kA)] ++
+                  on 1 (acc dB (kB - 1)) ++ on 2 (acc dB 0))]
+          for (p, j) in pats.zipIdx do
+            if (thorough || (qi + j) % 2 == 0 || dA ≤ 4 && dB ≤ 4) && p.2.length ≥ 2 then emit (cseqCase p.1 p.2)
+          qi := qi + 1
+  -- random interleavings: 2-3 contexts, 3-6 steps (random profiles / truncations / indirect objects; enter, leave, drop)
+  let mut r5 := Rng.mk' (seed + 32452843)
+  for _ in List.range (if thorough then n / 6 else n / 3) do
+    let (nc0, ra) := r5.nat 2
+    let nc := nc0 + 2
+    let (dk, rb) := (List.range nc).foldl (fun (acc : List (Nat × Nat) × Rng) _ =>
+      let (d, r) := acc.2.nat 10
+      let (k, r') := r.nat (d + 1)
+      (acc.1 ++ [(d, k)], r')) ([], ra)
+    let (ns0, rc) := rb.nat 4
+    -- (steps, expected depth per context, alive)
+    let (steps, _, _, rd) := (List.range (ns0 + 3)).foldl (fun (acc : List (Nat × String) × List Nat × List Bool × Rng) _ =>
+      let (steps, es, alive, r) := acc
+      let (i, r1) := r.nat nc
+      if !(alive.getD i true) then (steps, es, alive, r1)
+      else
+        let d := (dk.getD i (0, 0)).1
+        let e := es.getD i 0
+        let (what, r2) := r1.nat 10
+        if what == 0 then (steps ++ [(i, "enter")], es.set i (if e < d then e + 1 else e), alive, r2)
+        else if what == 1 && e ≥ 1 then (steps ++ [(i, "leave")], es.set i (e - 1), alive, r2)
+        else if what == 2 && steps.length ≥ 2 then (steps ++ [(i, "drop")], es, alive.set i false, r2)
+        else
+          let (len, r3) := r2.nat (d + 3)
+          let (prof, r4) := (List.range len).foldl (fun (acc : List Nat × Rng) _ =>
+            let (o, r) := acc.2.nat 3; (o :: acc.1, r)) ([], r3)
+          let (leaf, r5) := r4.pick leaves
+          let sb := render prof leaf
+          let (cut, r6) := r5.nat (sb.length + 1)
+          let (sel, r7) := r6.nat 4
+          let st := if sel == 0 then s!"cut {hexOfBytes (sb.take cut)}" else if sel == 1 then indStep "p" (1 + cut % 3) s!"nest {hexOfBytes sb} {len + 1}"
+                    else s!"nest {hexOfBytes sb} {len + 1}"
+          (steps ++ [(i, st)], es, alive, r7)) ([], dk.map (·.2), dk.map (fun _ => true), rc)
+    r5 := rd
+    if steps.length ≥ 2 then emit (cseqCase dk steps)
+
 /-- non-trivial: at least two levels of nesting in the input; width / length profiles: at least 1000 units; `ind`: the body's
     case non-trivial; `at`: starting depth >= 1 and the inner case non-trivial; `seq`: at least two steps, one of them non-trivial -/
 def nontrivialW0 : List String → Bool
@@ -904,11 +1287,26 @@ def nontrivialW (w : List String) : Bool :=
   | some x => nontrivialW0 x.inner
   | none => nontrivialW0 w
 
-def nontrivial (line : String) : Bool :=
-  match words line with
+def nontrivialWords : List String → Bool
   | "at" :: k0 :: rest => k0.toNat! ≥ 1 && nontrivialW rest
   | "seq" :: d :: _ :: rest => let st := stepsOf d rest; st.length ≥ 2 && st.any nontrivialW
   | w => nontrivialW w
+
+/-- `ctx`: the other context entered at least once and the inner case non-trivial; `cseq`: parse steps on at least two
+    different contexts, one of them non-trivial -/
+def nontrivial (line : String) : Bool :=
+  match words line with
+  | "ctx" :: _ :: jA :: _ :: inner => jA.toNat! ≥ 1 && nontrivialWords inner
+  | "cseq" :: rest =>
+    match cseqOf ("cseq" :: rest) with
+    | some (_, steps) =>
+      let parses := steps.filter fun st => !(["enter", "leave", "drop"].contains ((st.drop 1).headD ""))
+      (parses.map (·.headD "")).eraseDups.length ≥ 2 &&
+        parses.any fun st => match st with
+          | _ :: kind :: args => nontrivialW (kind :: "0" :: args)
+          | _ => false
+    | none => false
+  | w => nontrivialWords w
 
 def driver : PropDriver := { gen, model, judge, nontrivial }
 end Driver.C16
